@@ -15,9 +15,16 @@
     ([C03_builder_total_on_evaluated_specs]); a reference is written as a `$ref` exactly when
     its entry is kept as a component, and then the name in the `$ref` is a key of
     components.schemas ([C03_ref_written_iff_component_kept], [C03_refs_name_emitted_components]).
-    The YAML re-parse clause is checked on the implementation only. *)
+    And on the JSON document itself, by a traversal that knows nothing of the builder: wherever
+    the document has a member "$ref" with a string value, at any depth, the string is
+    "#/components/schemas/" followed by a key of that document's components.schemas
+    ([C03_document_refs_resolve]); with the evaluator: every successful evaluation yields a
+    document, and all its references resolve ([C03_evaluated_document_closed]). User-chosen map
+    keys (property, header, media type, example names) may spell "$ref", but their values are
+    objects and are not references. The base document is merged in a separate model (Merge.v,
+    C14); the YAML re-parse clause is checked on the implementation only. *)
 From Oal Require Import SpecUri SpecUriProofs.
-From Oal Require Eval ClosureProofs Builder BuilderProofs.
+From Oal Require Eval ClosureProofs Builder BuilderProofs RefClosure.
 
 Theorem C03_path_params_match : forall segs,
   forallb wf_seg segs = true -> braces (pattern segs) None = path_params segs.
@@ -87,3 +94,22 @@ Theorem C03_refs_name_emitted_components : forall strs table names k i s cs,
   In (Builder.untagged (Builder.name_at names i)) (map fst cs).
 Proof. exact BuilderProofs.refs_name_emitted_components. Qed.
 Print Assumptions C03_refs_name_emitted_components.
+
+(** reference closure on the JSON document, by traversal *)
+Theorem C03_document_refs_resolve : forall strs table names rels doc,
+  Builder.document strs table names rels = Some doc ->
+  forall t, RefClosure.jref_in t doc -> RefClosure.resolves doc t.
+Proof. exact RefClosure.document_refs_resolve. Qed.
+Print Assumptions C03_document_refs_resolve.
+
+Theorem C03_evaluated_document_closed : forall strs names P n rs rels table,
+  Eval.eval_program false P n rs = Eval.Ok (rels, table) ->
+  exists doc, Builder.document strs table names rels = Some doc /\
+              forall t, RefClosure.jref_in t doc -> RefClosure.resolves doc t.
+Proof. exact RefClosure.evaluated_document_closed. Qed.
+Print Assumptions C03_evaluated_document_closed.
+
+Example C03_document_with_a_reference :
+  exists doc, Builder.document (fun _ => []) RefClosure.ex_table [[64; 97]%N] [] = Some doc /\
+              RefClosure.jref_in (BuilderKeys.T_refprefix ++ [97%N]) doc /\ RefClosure.schema_names doc = [[97%N]].
+Proof. exact RefClosure.ex_doc_has_ref. Qed.
